@@ -5,7 +5,7 @@
    TemplateDictionary on every run, with the obligation current_dict_wf). *)
 From Coq Require Import Arith NArith ZArith Ascii String List Bool.
 From HV Require Import Base.Bytes ZC.ZeroCode Tmpl.Template Tmpl.TemplateProofs Tmpl.Codec
-  Tmpl.CodecProofs Tmpl.NormProofs Tmpl.ViewProofs.
+  Tmpl.CodecProofs Tmpl.NormProofs Tmpl.ViewProofs Tmpl.SameProofs.
 From HVgen Require Import Template_gen.
 Import ListNotations.
 Open Scope N_scope.
@@ -13,7 +13,8 @@ Open Scope N_scope.
 (* The round trip, for every well-formed dictionary and every conformant message:
    any message type, any legal block counts (present blocks = a non-empty prefix of the
    template's, Single 1, Multiple n, Variable <= 255), any in-range value for every
-   variable, any flags < 256, packet id < 2^32, up to 255 acks (with the ACK flag) and
+   variable (floats: every bit pattern except single-precision signalling NaNs - wider than the
+   property's "NaN-free", quiet NaNs round-trip bit-exactly), any flags < 256, packet id < 2^32, up to 255 acks (with the ACK flag) and
    up to 255 extra bytes; zero-coded (body up to the decoder's cap ZC_CAP = 0x3000) or
    not.  The decoded message is [normalize d m]: same name/flags/id/extra/acks, blocks
    and variables in template order, unset variables of fill_missing blocks as their
@@ -68,6 +69,37 @@ Theorem C01_default_is_zero_value : forall tv, wf_var tv = true ->
   ser_var tv None true = pack_var tv (default_val tv) /\ val_ok tv (default_val tv) = true.
 Proof. intros tv H. split; [now apply ser_var_default | now apply default_val_ok]. Qed.
 Print Assumptions C01_default_is_zero_value.
+
+(* the default-width clause as one equation: a message with unset variables under fill_missing (and
+   any dict order) encodes to exactly the datagram of its normal form, in which every variable is
+   set - the unset ones to the zero value at the width the template prescribes *)
+Theorem C01_serialize_normalize : forall d m, wf_dict d = true -> conforms d m = true ->
+  serialize d m = serialize d (normalize d m).
+Proof. exact serialize_normalize. Qed.
+Print Assumptions C01_serialize_normalize.
+
+(* conformance implies acceptance by the serializer ... *)
+Theorem C01_conforms_accepted : forall d m, wf_dict d = true -> conforms d m = true -> serialize d m <> None.
+Proof. exact conforms_accepted. Qed.
+Print Assumptions C01_conforms_accepted.
+
+(* ... but not the other way round.  Full-strength "conforms d m = true <-> serialize d m <> None" is
+   FALSE: the serializer also accepts messages that are not template-conformant and that do not round
+   trip (no count check on Single blocks, acks silently dropped without the ACK flag, unknown variables
+   skipped, packet_id None sent as 0, zero-coded bodies above the decoder's cap).  Witness: a PacketAck
+   carrying acks but not the ACK flag is encoded, and decodes to a message without the acks. *)
+Definition ex_acks_noflag : msg :=
+  {| m_name := list_ascii_of_string "PacketAck"; m_flags := 0; m_pid := Some 1; m_extra := []; m_acks := [7]; m_raw := None;
+     m_body := [ (list_ascii_of_string "Packets", [ {| b_fill := false; b_vars := [ (list_ascii_of_string "ID", WU 1) ] |} ]) ] |}.
+
+Theorem C01_accepted_implies_conforms_refuted : exists m bs,
+  serialize current_dict m = Some bs /\ conforms current_dict m = false
+  /\ deserialize current_dict bs <> Some (normalize current_dict m).
+Proof.
+  exists ex_acks_noflag. eexists. split; [vm_compute; reflexivity|]. split; [vm_compute; reflexivity|].
+  vm_compute. discriminate.
+Qed.
+Print Assumptions C01_accepted_implies_conforms_refuted.
 
 (* every variable: decode (encode v ++ rest) = (v, rest), whatever follows *)
 Theorem C01_var_roundtrip : forall tv v, wf_var tv = true -> val_ok tv v = true ->
